@@ -8,4 +8,12 @@ bash coq/build.sh > coq/setup.log 2>&1 || { tail -40 coq/setup.log; echo "static
 if grep -rnE '\b(Admitted|admit|Axiom|Axioms|Parameter|Parameters|Conjecture|Admit Obligations)\b|Unset +Guard|bypass_check|type-in-type|impredicative-set' coq/theories --include='*.v' | grep -v '^[^:]*:[0-9]*: *(\*' ; then
   echo "forbidden vernacular found"; exit 1
 fi
+# optional (VERIF_COQCHK=1, about 30-40 min single-threaded): independent re-check of the compiled property files and
+# everything they depend on with coqchk; its axiom summary goes to coq/coqchk.log (a copy of the last run is committed as
+# coq/coqchk.summary.txt).  Not part of the default setup: the kernel has already accepted every proof above.
+if [ -n "$VERIF_COQCHK" ]; then
+  mods=$(cd coq/theories/Properties && ls *.v | sed 's/\.v$//' | sed 's/^/VP.Properties./' | tr '\n' ' ')
+  ( cd coq && timeout 7200 coqchk -silent -o -Q theories VP $mods > coqchk.log 2>&1; echo "coqchk exit=$?" >> coqchk.log ) || true
+  tail -1 coq/coqchk.log
+fi
 echo "setup ok: $(find coq/theories -name '*.vo' | wc -l) .vo files"
